@@ -251,8 +251,10 @@ def run(ctx):
         ix = {'slice': [rng.choice([None, 0, 1, -1, -2]), rng.choice([None, 1, 2, L, -1]), rng.choice([None, 1, 2])], 'mask': [rng.randint(0, 1) for _ in range(L)],
               'idx': [rng.randrange(L) for _ in range(rng.randint(1, 3))]}[kind]
         do(ctx, 'C20.poly_index', ['torch', terms, kind, ix], nontrivial=('b20', it))
-    do(ctx, 'C16.chi2_product', ['torch', 14400 if ctx.tier == 'quick' else 144000, 15], nontrivial='b16')
-    do(ctx, 'C16.chi2_rows', ['torch', 8000 if ctx.tier == 'quick' else 80000, 18], nontrivial='b16r')
+    if not getattr(ctx, 'is_worker', False):
+        do(ctx, 'C16.chi2_product', ['torch', 14400 if ctx.tier == 'quick' else 144000, 15], nontrivial='b16')
+    if not getattr(ctx, 'is_worker', False):
+        do(ctx, 'C16.chi2_rows', ['torch', 8000 if ctx.tier == 'quick' else 80000, 18], nontrivial='b16r')
     # torch entropy on mixed and pure states with regions of every size, against the dense von Neumann entropy (the real-rank defect of torch z2rank is a known finding)
     for it in range(int(250 * B)):
         n = rng.randint(2, 5)
